@@ -1012,12 +1012,26 @@ fn c07_read_with_tape_loaded() {
 
 /// floating-bus check with a witness byte in a literal bank class: 0 = the normal screen, 1 = the shadow
 /// screen (128K bank 7), 2 = RAM that is never display memory
-fn floating_bus_body(bank_class: u8) {
+fn floating_bus_body(shadow_displayed: bool) {
     let (mut c, latch, t) = any_controller_at(false, false);
     let m = c.machine;
-    if bank_class == 1 {
-        kani::assume(m == ZXMachine::Sinclair128K);
+    // which screen the ULA displays is literal per harness (re-assigning the field to the value it is
+    // assumed to hold keeps the page base address in floating_bus_value a constant for the solver)
+    if shadow_displayed {
+        kani::assume(m == ZXMachine::Sinclair128K && latch.val & 0x08 != 0);
+        kani::assert(c.screen_bank == 7, "c07.float.shadow_screen_selected_by_latch_bit3");
+        c.screen_bank = 7;
+    } else if m == ZXMachine::Sinclair128K {
+        kani::assume(latch.val & 0x08 == 0);
+        kani::assert(c.screen_bank == 5, "c07.float.normal_screen_selected");
+        c.screen_bank = 5;
+    } else {
+        kani::assert(c.screen_bank == 0, "c07.float.48k_screen");
+        c.screen_bank = 0;
     }
+    // witness bank class: 0 = the normal screen bank, 1 = the shadow screen bank, 2 = never display memory
+    let bank_class: u8 = kani::any();
+    kani::assume(bank_class < 3 && (bank_class != 1 || m == ZXMachine::Sinclair128K));
     let v: u8 = kani::any();
     kani::assume(v != 0 && v != 0xFF);
     let wsel: u8 = kani::any();
@@ -1103,9 +1117,9 @@ fn floating_bus_body(bank_class: u8) {
             let before_hi = (l_hi > wl_lo) || (l_hi >= wl_lo && c_hi >= wcell);
             kani::assert((in_lo || in_hi) && after_lo && before_hi, "c07.float.byte_is_the_one_being_fetched");
         }
-        kani::cover!(bank_class == 2 || (got == v && w_attr), "attribute byte seen on the floating bus");
-        kani::cover!(bank_class != 1 || (got == v && w_bank == 7), "shadow-screen byte seen on the floating bus");
-        kani::cover!(bank_class == 2 || (got == v && !w_attr && wsel == 1), "bitmap byte seen on the floating bus");
+        kani::cover!(got == v && w_attr, "attribute byte seen on the floating bus");
+        kani::cover!(!shadow_displayed || (got == v && w_bank == 7), "shadow-screen byte seen on the floating bus");
+        kani::cover!(got == v && !w_attr && wsel == 1, "bitmap byte seen on the floating bus");
         kani::cover!(same_gap && t > 20000, "idle bus inside the picture area (right border / retrace)");
     }
     
@@ -1115,9 +1129,9 @@ fn floating_bus_body(bank_class: u8) {
 // @harness
 // @prop C07
 // @tier quick
-// @timeout 1200
+// @timeout 1500
 // @fn ZXController::read_io (unclaimed port); ZXController::floating_bus_value; bitmap_line_addr; ZXMemory::ram_page_data
-// @sym machine, latch (two symbolic writes: any bank at 0xC000, either screen displayed), frame time, unclaimed odd port, one witness byte (cell from a class of 5 bitmap/attribute positions) in the normal screen bank (bank 5 / 48K screen RAM)
+// @sym 48K, or 128K with latch bit 3 clear (normal screen displayed); latch otherwise symbolic (any bank at 0xC000, lock, ROM), frame time, unclaimed odd port, one witness byte (cell from a class of 5 bitmap/attribute positions) in the normal screen bank, the shadow screen bank or a RAM bank that is never display memory
 // @assert a read from a port no device claims returns 0xFF when the whole cycle lies outside the picture fetch windows (+-4 T); otherwise 0xFF or a byte of the display file/attributes of the cells being fetched during the cycle (+-4 T), taken from the bank the ULA is displaying (bank 7 while latch bit 3 is set) and from no other RAM bank, whatever is paged at 0xC000
 // @bound one port read; witness positions {(0,0), (100,17), (191,31)} bitmap, {(12,17), (23,31)} attributes
 // @stub ZXScreen::process_clocks -> no-op
@@ -1126,15 +1140,15 @@ fn floating_bus_body(bank_class: u8) {
 #[kani::unwind(10)]
 #[kani::stub(crate::zx::video::screen::ZXScreen::process_clocks, noop_screen_clocks)]
 fn c07_floating_bus_normal_screen() {
-    floating_bus_body(0);
+    floating_bus_body(false);
 }
 
 // @harness
 // @prop C07
 // @tier quick
-// @timeout 1200
+// @timeout 1500
 // @fn ZXController::read_io (unclaimed port); ZXController::floating_bus_value; bitmap_line_addr; ZXMemory::ram_page_data
-// @sym machine, latch (two symbolic writes: any bank at 0xC000, either screen displayed), frame time, unclaimed odd port, one witness byte (cell from a class of 5 bitmap/attribute positions) in the 128K shadow screen bank 7
+// @sym 128K with latch bit 3 set (shadow screen displayed); latch otherwise symbolic (any bank at 0xC000, lock, ROM), frame time, unclaimed odd port, one witness byte (cell from a class of 5 bitmap/attribute positions) in the normal screen bank, the shadow screen bank or a RAM bank that is never display memory
 // @assert a read from a port no device claims returns 0xFF when the whole cycle lies outside the picture fetch windows (+-4 T); otherwise 0xFF or a byte of the display file/attributes of the cells being fetched during the cycle (+-4 T), taken from the bank the ULA is displaying (bank 7 while latch bit 3 is set) and from no other RAM bank, whatever is paged at 0xC000
 // @bound one port read; witness positions {(0,0), (100,17), (191,31)} bitmap, {(12,17), (23,31)} attributes
 // @stub ZXScreen::process_clocks -> no-op
@@ -1143,24 +1157,7 @@ fn c07_floating_bus_normal_screen() {
 #[kani::unwind(10)]
 #[kani::stub(crate::zx::video::screen::ZXScreen::process_clocks, noop_screen_clocks)]
 fn c07_floating_bus_shadow_screen() {
-    floating_bus_body(1);
-}
-
-// @harness
-// @prop C07
-// @tier quick
-// @timeout 1200
-// @fn ZXController::read_io (unclaimed port); ZXController::floating_bus_value; bitmap_line_addr; ZXMemory::ram_page_data
-// @sym machine, latch (two symbolic writes: any bank at 0xC000, either screen displayed), frame time, unclaimed odd port, one witness byte (cell from a class of 5 bitmap/attribute positions) in a RAM bank that is never display memory (128K bank 3 / 48K RAM at 0x8000)
-// @assert a read from a port no device claims returns 0xFF when the whole cycle lies outside the picture fetch windows (+-4 T); otherwise 0xFF or a byte of the display file/attributes of the cells being fetched during the cycle (+-4 T), taken from the bank the ULA is displaying (bank 7 while latch bit 3 is set) and from no other RAM bank, whatever is paged at 0xC000
-// @bound one port read; witness positions {(0,0), (100,17), (191,31)} bitmap, {(12,17), (23,31)} attributes
-// @stub ZXScreen::process_clocks -> no-op
-// @replay solver-only
-#[kani::proof]
-#[kani::unwind(10)]
-#[kani::stub(crate::zx::video::screen::ZXScreen::process_clocks, noop_screen_clocks)]
-fn c07_floating_bus_other_ram() {
-    floating_bus_body(2);
+    floating_bus_body(true);
 }
 
 // =============================================================================================
